@@ -71,6 +71,47 @@ pub fn scalar_set(r: &BigUint, quick: bool) -> Vec<(String, BigUint, usize)> {
             }
         }
     }
+    // exceptional cases of addition chains: integers k (reduced and unreduced) for which a
+    // double-and-add ladder meets "accumulator == +-addend" or "accumulator == identity" at some
+    // step i, which is where a dedicated (incomplete) addition or a skipped step goes wrong.
+    //   right-to-left:  (k mod 2^i) = +-2^i (mod r) with bit i set
+    //   left-to-right:  (k >> i)   = 0, +-1 (mod r)  for i > 0, i.e. a prefix m*r or m*r +- 1
+    {
+        let steps: Vec<u32> = if quick { vec![1, 63, 64, 65, 127, 128, 200, 251, 252, 253, 254, 255, 256, 300, 319] } else { (1..=320u32).collect() };
+        for &i in &steps {
+            let ti = BigUint::one() << i;
+            let res = &ti % r;
+            // suffix congruent to +-2^i, as an integer below 2^i (needs 2^i > the residue)
+            for (sg, low0) in [("+", res.clone()), ("-", (r - &res) % r)] {
+                let mut low = low0;
+                let mut m = 0u32;
+                while low < ti && m < 2 {
+                    if !low.is_zero() {
+                        for hi in 0..2u32 {
+                            let k = &low + &ti + (BigUint::from(hi) << (i + 1));
+                            if k.bits() <= 384 {
+                                push(format!("chain:suffix{sg}2^{i}:m{m}:h{hi}"), k.clone(), nl(&k));
+                            }
+                        }
+                    }
+                    low += r;
+                    m += 1;
+                }
+            }
+            // prefix m*r + e, e in {-1, 0, 1}, followed by i low bits
+            for m in 1..=2u32 {
+                for e in [-1i32, 0, 1] {
+                    let pre = if e < 0 { r * m - 1u32 } else { r * m + e as u32 };
+                    for (ln, low) in [("0", BigUint::zero()), ("1", BigUint::one()), ("ones", &ti - 1u32)] {
+                        let k = (&pre << i) + low;
+                        if k.bits() <= 384 && (i % 8 == 0 || i < 4 || (250..=258).contains(&i) || !quick) {
+                            push(format!("chain:prefix{m}r{e:+}:<<{i}:{ln}"), k.clone(), nl(&k));
+                        }
+                    }
+                }
+            }
+        }
+    }
     // short and over-long presentations of small values
     push("5 (1 limb)".into(), BigUint::from(5u32), 1);
     push("5 (8 limbs)".into(), BigUint::from(5u32), 8);
@@ -123,7 +164,7 @@ pub fn run(ctx: &Arc<Ctx>) {
         |&&(si, fi, ki)| (format!("{}", gm.forms[fi].name), json!({"seed": gm.seeds_name(&seeds[si]), "form": gm.forms[fi].name, "k": gm.scalars[ki].name, "k_limbs": gm.scalars[ki].limbs.iter().map(|x| x.to_string()).collect::<Vec<_>>()})),
     );
     ctx.report.set("C05_grid", json!({"scalars": ks.len(), "seeds": seeds.len(), "mul_forms": mul_forms.len(), "cases": cases.len()}));
-    ctx.report.rule(format!("E3/C05[{BUILD}]: {} structured scalars (0..3, r-2..r+1, 2r-1, 2r, (r+-1)/2, 2^i and 2^i-1 up to i=320, every 0/all-ones pattern of 1..5 limbs, short/over-long/empty limb lists) x {} representative seeds x {} scalar-multiplication forms; result compared with k mod r in the module model concretised by the reference double-and-add", ks.len(), seeds.len(), mul_forms.len()));
+    ctx.report.rule(format!("E3/C05[{BUILD}]: {} structured scalars (0..3, r-2..r+1, 2r-1, 2r, (r+-1)/2, 2^i and 2^i-1 up to i=320, every 0/all-ones pattern of 1..5 limbs, adjacent-limb carry patterns 0x55../0xAA../2^63+-1, addition-chain exceptional cases (suffix = +-2^i mod r with bit i set; prefix m*r, m*r+-1) reduced and unreduced, short/over-long/empty limb lists) x {} representative seeds x {} scalar-multiplication forms; result compared with k mod r in the module model concretised by the reference double-and-add", ks.len(), seeds.len(), mul_forms.len()));
     #[cfg(feature = "ark")]
     msm(ctx, &gm);
 }
